@@ -1389,6 +1389,9 @@ class TreeEntry(NamedTuple):
         return TreeEntry(posixpath.join(path, self.path), self.mode, self.sha)
 
 
+_TREE_MODE_RE = re.compile(rb"[0-7]+")
+
+
 def parse_tree(
     text: bytes, sha_len: int | None = None, *, strict: bool = False
 ) -> Iterator[tuple[bytes, int, bytes]]:
@@ -1411,10 +1414,13 @@ def parse_tree(
         mode_text = text[count:mode_end]
         if strict and mode_text.startswith(b"0"):
             raise ObjectFormatException(f"Invalid mode {mode_text!r}")
-        try:
-            mode = int(mode_text, 8)
-        except ValueError as exc:
-            raise ObjectFormatException(f"Invalid mode {mode_text!r}") from exc
+        # Like git (and the Rust implementation), accept octal digits only:
+        # int() would also take signs, whitespace, "0o" and underscores.
+        if not _TREE_MODE_RE.fullmatch(mode_text):
+            raise ObjectFormatException(f"Invalid mode {mode_text!r}")
+        mode = int(mode_text, 8)
+        if mode > 0xFFFFFFFF:
+            raise ObjectFormatException(f"Invalid mode {mode_text!r}")
         name_end = text.index(b"\0", mode_end)
         name = text[mode_end + 1 : name_end]
 
